@@ -577,6 +577,21 @@ def fold_events(px, st, events, place, init, init_empty=True):
                     state, empty = U, True
                     why.append('passed by &mut to %s' % name.split('::')[-1])
             continue
+        if not models.MUTATOR_RE.search(name) and last(name) not in NOT_OPS:
+            # any other external function that receives `&mut` access to the collection (Option::as_deref_mut, mem::swap, slice::split_at_mut,
+            # a generic helper of another crate ...): what is done through the reference it hands on is not tracked, the order is unknown
+            shared = ev[9] if len(ev) > 9 else ()
+            for ai, a in enumerate(ev[2]):
+                if ai >= len(shared) or shared[ai] or not (isinstance(a, tuple) and a and a[0] == 'ref'):
+                    continue
+                try:
+                    pl = models.vec_place(px, st, a)
+                except Exception:
+                    pl = None
+                if pl is not None and (pl == place or px.is_prefix(pl, place)):
+                    state, empty = U, True
+                    why.append('mutable access handed to %s' % name.split('::')[-1])
+            continue
         if not models.MUTATOR_RE.search(name) or last(name) in NOT_OPS:
             continue
         tp = target_place(px, st, ev)
